@@ -203,6 +203,21 @@ def gen_crafted(rng, target="binary"):
     rates = [rng.choice(grid) for _ in levels]
     sizes = [unit * rng.choice([1, 1, 2, 3, 4]) for _ in levels]
     nan_size = unit * rng.choice([0, 0, 1, 2])
+    hint = None
+    if rng.random() < 0.25:
+        # fine mode: a large sample in which one modality sits a hair (< 5e-4 of the rows) below or exactly at a usual
+        # min_freq_mod threshold, so that any rounding of the frequencies before the comparison shows
+        unit = 40
+        sizes = [unit * rng.choice([10, 15, 20, 25]) for _ in levels]
+        nan_size = unit * rng.choice([0, 0, 5])
+        total = sum(sizes) + nan_size
+        thr = rng.choice([0.05, 0.1, 0.125, 0.2, 0.25])
+        i = rng.randrange(k)
+        total_others = total - sizes[i]
+        # size s with s / (total_others + s) just below thr:  s < thr * total_others / (1 - thr)
+        s_star = int(thr * total_others / (1 - thr))
+        sizes[i] = max(1, s_star - rng.choice([0, 0, 1, 2]))
+        hint = thr
     nan_rate = rng.choice(grid)
     v, yv = sample(rates, sizes, nan_size, nan_rate)
     with_dev = rng.random() < 0.6
@@ -230,7 +245,7 @@ def gen_crafted(rng, target="binary"):
     ds = dict(X=X, y=y, X_dev=X_dev, y_dev=y_dev,
               quantitative=[name] if kind == "disc" else [], qualitative=[name] if kind == "cat" else [],
               ordinal=[name] if kind == "ord" else [], values_orders={name: list(levels)} if kind == "ord" else {},
-              target=target, kinds=["crafted-" + kind])
+              target=target, kinds=["crafted-" + kind], hint_min_freq_mod=hint)
     ds["ok_target"] = _target_ok(ds)
     return ds
 
